@@ -84,6 +84,10 @@ EXPLANATION += (
     ' Round 14: node pairs emitted from itertools.combinations come from a plainly sorted list (R-ORDER/pairs-plainly-oriented).'
 )
 
+EXPLANATION += (
+    ' Round 16: a merge over several files stores entries only for the keys of the current file (R-COVER/merge-keeps-earlier).'
+)
+
 RULE_TEXT = (
     "one obligation per (file kind, reader, required dataset), per "
     "provenance relation; non-trivial when the reader requires at least "
